@@ -218,6 +218,9 @@ def prod_setup(cfg, tags, nmax):
     """The environment is built once in the parent; forked workers inherit it (copy-on-write)."""
     L = lib(cfg)
     env = {"L": L, "data": {t: Data(L, t, nmax) for t in tags}}
+    env["hist"] = Data(L, "H", 10)
+    for n in range(11):
+        env["hist"].agg(n)
     for D in env["data"].values():
         for n in range(nmax + 1):
             D.agg(n)
@@ -311,6 +314,68 @@ def transition_case(env, case, st):
     st.count("nb=0" if nb == 0 else ("nn=0" if nn == 0 else ("nn=1" if nn == 1 else "nb>0,nn>1")))
     st.nt((tag, nb, nn))
     legal(L, st, "transition")
+
+
+# ------------------------------------------------------------------ E3: two-call histories on the same objects
+HIST_CAP = 32 * 16
+
+
+def _fixed(role, size, data):
+    h = arena(role, size)
+    _libc.memset(h.p, 0x5A, size)
+    if data:
+        ctypes.memmove(h.p, data, len(data))
+    return h
+
+
+def history_case(env, case, st):
+    """case = (t1, t2, n1, nn, via_agg): a first (inc_)aggregate call builds the n1-aggregate of data set t1 in a
+    buffer; then THE SAME buffer and THE SAME key / message / signature arrays (same addresses) are refilled with
+    data set t2 (its canonical n1-aggregate) and extended by nn signatures: the result must be t2's canonical
+    aggregate - the aggregator may not remember anything about the earlier call."""
+    t1, t2, n1, nn, via_agg = case
+    L = env["L"]
+    D1 = env["hist"] if t1 == "H" else env["data"][t1]
+    D2 = env["hist"] if t2 == "H" else env["data"][t2]
+    report_problems(env, D1, st)
+    report_problems(env, D2, st)
+    tot = n1 + nn
+
+    def call(D, start, nb, k, aggregate):
+        b = _fixed("h-agg", HIST_CAP, start)
+        hp = _fixed("h-pk", 64 * 16, b"".join(D.pkobj[:nb + k]))
+        hm = _fixed("h-msg", 32 * 16, b"".join(D.msgs[:nb + k]))
+        hs = _fixed("h-sig", 64 * 16, b"".join(D.sigs[nb:nb + k]))
+        ln = c_size_t(HIST_CAP)
+        if aggregate:
+            r = L.schnorrsig_aggregate(L.ctx, b.p, byref(ln), hp.p, hm.p, hs.p, k)
+        else:
+            r = L.schnorrsig_inc_aggregate(L.ctx, b.p, byref(ln), hp.p, hm.p, hs.p, nb, k)
+        st.calls += 1
+        return r, ln.value, b
+
+    if via_agg:
+        r, ln, b = call(D1, b"", 0, n1, True)
+    else:
+        r, ln, b = call(D1, D1.agg(n1 - 1), n1 - 1, 1, False)
+    if r != 1 or ln != 32 * (n1 + 1) or not b.starts(D1.agg(n1)):
+        st.fail("first call of the history (n=%d) differs from the model" % n1, {"cfg": L.config, "case": list(case)})
+        return
+    r, ln, b = call(D2, D2.agg(n1), n1, nn, False)
+    want = D2.agg(tot)
+    if r != 1 or ln != 32 * (tot + 1) or not b.starts(want):
+        st.fail("inc_aggregate(n_before=%d, n_new=%d) on a buffer / arrays that an earlier call used for OTHER signatures differs from the model: the result depends on the earlier call" % (n1, nn),
+                {"cfg": L.config, "first_data": t1, "second_data": t2, "n_before": n1, "n_new": nn, "first_via_aggregate": bool(via_agg),
+                 "ret": r, "len": ln, "got": hx(b.head(32 * (tot + 1))), "model": hx(want)})
+        return
+    if call_verify(L, D2.pkobj[:tot], D2.msgs[:tot], tot, want) != 1:
+        st.fail("aggverify rejects the aggregate reached by the history", {"cfg": L.config, "case": list(case)})
+    st.calls += 1
+    st.count("history-ok")
+    st.nt(case)
+    legal(L, st, "history")
+    if n1 == 2 and nn == 1:
+        st.sample({"first": "%s n=%d via %s" % (t1, n1, "aggregate" if via_agg else "inc_aggregate"), "then": "same buffers refilled with %s, inc_aggregate(%d,%d)" % (t2, n1, nn)})
 
 
 # ------------------------------------------------------------------ E3: buffer lengths
@@ -1043,6 +1108,11 @@ def main():
                   rule="state-space argument: the aggregator's state is (n_before, aggsig bytes); every transition (n_before, n_new) with n_before + n_new <= 64 "
                        "(2145 per data set) is taken from the canonical state (model one-shot aggregate of the prefix) and must reach the canonical state of n_before+n_new, "
                        "with exact / +17 / +64 byte buffers and three tail fills; together with splits this closes every composition for n <= 64")
+        cases = [(t1, t2, n1, nn, via) for (t1, t2) in (("A", "H"), ("H", "A"), ("A", "A")) for n1 in range(1, 9) for nn in (1, 2) for via in (1, 0)]
+        run_phase(run, "%s/same-buffer-histories" % cfg, history_case, cases, setup=setup,
+                  rule="two-call histories on the SAME buffer and argument arrays (same addresses): call 1 builds the n1-aggregate of data set X (via aggregate or inc_aggregate), "
+                       "then the objects are refilled with data set Y's canonical n1-aggregate and inc_aggregate(n1, n_new in {1,2}) must give Y's canonical aggregate (model), "
+                       "n1 in 1..8, (X,Y) in {(A,H),(H,A),(A,A)}: the aggregator has no memory across calls")
         ns = list(range(0, 9)) + ([64] if main_cfg else [])
         cases = []
         for n in ns:
